@@ -17,6 +17,12 @@ import re
 import rustscan as rs
 
 
+# D8: `Some(&b'e' | b'E')` on an Option<&u8> -> `Some(b'e' | b'E')` (default binding modes: same match semantics)
+D8_REFPAT = (re.compile(r"""Some\(&(b'(?:\\.|[^'\\])'(?: \| b'(?:\\.|[^'\\])')+)\)"""), r'Some(\1)', 'D8')
+# D5: `<str getter>().len()` -> `.as_bytes().len()` (str::len has no usable Verus spec; same value)
+D5_GETTER_LEN = (re.compile(r'(\.get_(?:indentation|continuation|newline)_str\(\))\.len\(\)'), r'\1.as_bytes().len()', 'D5')
+
+
 class LostAnchor(Exception):
     """An extraction or splice anchor was not found: obligation undecided."""
 
@@ -176,6 +182,13 @@ class Unit:
     def _apply_edits(self, text, edits, rec):
         for e in edits or []:
             old, new, rule = e[0], e[1], e[2]
+            if isinstance(old, re.Pattern):
+                # a rewrite *rule* (applies wherever the construct occurs in the function, at least once)
+                text, n = old.subn(new, text)
+                if n < 1:
+                    raise LostAnchor('rewrite rule %s (%s) matches nothing' % (rule, old.pattern[:50]))
+                rec.append((rule, 'rewrite', '%s => %s (%d site(s))' % (old.pattern[:50], new[:50], n)))
+                continue
             count = e[3] if len(e) > 3 else 1
             if text.count(old) != count:
                 raise LostAnchor('edit anchor %r occurs %d times, expected %d' % (old[:50], text.count(old), count))
